@@ -234,6 +234,53 @@ def work(case):
     return res
 
 
+def _hashes(nested):
+    import numpy as np
+
+    return [[field_hash(np.array([list(p) for p in f], dtype=np.float64).reshape(-1, 2)) for f in fs] for fs in nested]
+
+
+def mirror_case(case):
+    a = list(case["args"])
+    if case["gen"] in ("rect", "nest", "zoned"):
+        a[0], a[1] = a[1], a[0]
+    return {**case, "args": a}
+
+
+def history_work(chunk):
+    """Call history inside ONE process: every domain is built, built again, its mirrored lot is built,
+    and it is built a third time; the object returned by the first call is kept alive and re-hashed
+    at the end.  A generator whose result depends on what was built before (memoised or shared lists
+    mutated in place) shows up as differing hashes; the land/spacing predicate is then evaluated on
+    the differing result."""
+    os.environ["OMP_NUM_THREADS"] = "1"
+    out = []
+    for case in chunk:
+        rec = {}
+        try:
+            with ghelib.quiet():
+                r1 = call_impl(case)
+                h1 = _hashes(r1)
+                r2 = call_impl(case)
+                h2 = _hashes(r2)
+                try:
+                    call_impl(mirror_case(case))
+                except Exception:  # noqa: BLE001
+                    pass
+                r3 = call_impl(case)
+                h3 = _hashes(r3)
+                h1b = _hashes(r1)
+            rec = {"h": [h1, h2, h3, h1b], "fails": []}
+            for name, h, r in (("second build", h2, r2), ("third build (after the mirrored lot)", h3, r3), ("first build, re-read after later builds", h1b, r1)):
+                if h != h1:
+                    nested = [[list(f) for f in fs] for fs in r]
+                    rec["fails"].append((name, predicate(case, nested)[:2]))
+        except Exception as e:  # noqa: BLE001
+            rec = {"err": type(e).__name__}
+        out.append(rec)
+    return out
+
+
 # ----------------------------------------------------------------------------- model side
 def dom_line(case, mode):
     g, a, k = case["gen"], case["args"], case.get("ints", [])
@@ -646,6 +693,34 @@ def run(ctx: core.Ctx):
                                     broke("exact-correspondence", case, {"impl": (x, y), "model": (float(mx), float(my))})
                 elif g == "co":
                     broke("exact-correspondence", case, {"impl_shape": res["shape"], "model": eerr or "shape differs"})
+
+    # ------------------------------------------------------------ call histories in one process
+    if not ctx.replay or cases[0].get("history"):
+        hist_idx = [i for i, c in enumerate(cases) if c["gen"] in ("rect", "nest", "zoned", "ns") and c.get("via") and results[i]["err"] is None
+                    and results[i].get("points", 0) <= 60000]
+        tr = [i for i in hist_idx if cases[i]["gen"] != "ns" and cases[i]["args"][0] < cases[i]["args"][1]]
+        rest = [i for i in hist_idx if i not in set(tr)]
+        n_h = 160 if quick else 900
+        hist_idx = (tr[: n_h // 2] + rest)[:n_h]
+        chunks = [hist_idx[j:j + 8] for j in range(0, len(hist_idx), 8)]
+        hres = core.pool_map(history_work, [[cases[i] for i in ch] for ch in chunks])
+        for ch, hr in zip(chunks, hres):
+            for i, rec in zip(ch, hr):
+                case = cases[i]
+                ctx.count("history:" + case["gen"] + (":transposed" if case["gen"] != "ns" and case["args"][0] < case["args"][1] else ""))
+                ctx.case(("history", case_sig(case)), True)
+                if "err" in rec:
+                    broke("history-correspondence", case, {"raised on a repeated build": rec["err"]})
+                    continue
+                if rec["h"][0] != results[i]["hash"]:
+                    broke("history-correspondence", case, "first build in the history process differs from the single build")
+                for name, fails in rec["fails"]:
+                    if fails:
+                        kind, what = fails[0]
+                        ctx.finding(case_key(case, "history-" + kind), f"{name} of the same lot in one process: {what}",
+                                    {"case": {**case, "history": True}, "kind": kind, "history": "build, build again, build the mirrored lot, build again; first result kept alive"})
+                    else:
+                        broke("history-correspondence", case, f"{name} differs from the first build of the same lot")
 
     ctx.extra["max_exact_vs_binary64_deviation"] = float(max_dev)
     ctx.programs = 13
